@@ -148,7 +148,7 @@ def borrowed_and_name_cases(ctx):
 
 def run(ctx):
     world = H.World(ctx.rng)
-    n_hist = 200 if ctx.quick else 1500
+    n_hist = 1200 if ctx.quick else 6000
     w = {"appa": 4, "appw": 4, "load": 4, "setcount": 3, "setcap": 3, "settiming": 3, "write": 2, "get": 1, "pickle": 0, "bad": 5}
     for i in range(n_hist):
         kind = ["analog", "complex", "spectrum", "digital"][i % 4]
